@@ -526,6 +526,9 @@ def _build_and_run(tier, seed, profiles, decls_override=None):
         d = table[name]
         # user-supplied identifiers (the base type as written, custom field types) are the user's own names
         allowed = {"core", "arbitrary_int", "Self", name, "Partial" + name, "Result", "Option", "Default", d.get("base", "")}
+        # the primitive integer types are language items whose associated constants and functions live in core (`u8::MAX`,
+        # `u32::BITS`): available under #![no_std], nothing outside core (a harmless rewrite of a mask used them: H36)
+        allowed |= {"u8", "u16", "u32", "u64", "u128", "usize", "i8", "i16", "i32", "i64", "i128", "isize", "bool"}
         for f in d.get("fields", []):
             if f.get("custom"):
                 allowed.add(f["custom"])
